@@ -45,6 +45,7 @@ class Arr:
         self.owner = {d: {} for d in self.disks}     # pos -> (file name, block index in file)
         self.files = {}                 # (disk, name) -> dict(start, nblk, data, mtime_ns)
         self.pending = set()            # (disk, name) added but not (fully) synced
+        self.deleted = {}               # (disk, pos) -> True: block of a file deleted since the sync (DELETED once scanned)
         self.silent = {}                # (disk, pos) -> original block bytes   (silent corruption in place)
         self.pcorrupt = {}              # (level, pos) -> original parity block bytes
         self.changed = {}               # (disk, name) -> 'content' | 'touch' | 'missing'
@@ -130,23 +131,45 @@ class Arr:
 
     # ------------------------------------------------------------------ files
     def add_files(self, spec):
-        """spec: list of (disk, nblocks); names sort after everything present, so allocation is sequential"""
+        """spec: list of (disk, nblocks[, start[, copy_of]]); names carry the disk and sort after everything present.
+        Without `start` the file is appended after the last block of the disk (no holes); with `start` it is expected
+        to fill the hole left by a deleted file (scan allocates from the first position without a file).
+        copy_of = (disk, name): same name, bytes and mtime as an existing file of another disk (scan:copy -> REP blocks)"""
         self.batch += 1
         seq = {}
-        for disk, nblk in spec:
+        for ent in spec:
+            disk, nblk = ent[0], ent[1]
+            start = ent[2] if len(ent) > 2 and ent[2] is not None else None
+            copy_of = ent[3] if len(ent) > 3 else None
             seq[disk] = seq.get(disk, 0) + 1
-            name = 'b%03d_%02d' % (self.batch, seq[disk])
-            data = self.rng.randbytes(1024 * nblk)
+            if copy_of is not None:
+                src = self.files[copy_of]
+                name, data, mt, nblk = copy_of[1], src['data'], src['mtime_ns'], src['nblk']
+            else:
+                name = 'b%03d_%s_%02d' % (self.batch, disk, seq[disk])
+                data = self.rng.randbytes(1024 * nblk)
+                mt = (1500000000 + self.batch * 1000 + seq[disk]) * 10 ** 9 + 123456789
             p = os.path.join(self.root, disk, name)
             open(p, 'wb').write(data)
-            mt = (1500000000 + self.batch * 1000 + seq[disk]) * 10 ** 9 + 123456789
             os.utime(p, ns=(mt, mt))
-            start = self.alloc[disk]
-            self.files[(disk, name)] = {'start': start, 'nblk': nblk, 'data': data, 'mtime_ns': mt}
+            if start is None:
+                start = self.alloc[disk]
+                self.alloc[disk] += nblk
+            self.files[(disk, name)] = {'start': start, 'nblk': nblk, 'data': data, 'mtime_ns': mt, 'rep': copy_of is not None}
             for i in range(nblk):
                 self.owner[disk][start + i] = (name, i)
-            self.alloc[disk] += nblk
+                self.deleted.pop((disk, start + i), None)      # a DELETED block overwritten by a new file becomes CHG
             self.pending.add((disk, name))
+
+    def delete_file(self, disk, name):
+        """a file deleted since the last sync: its blocks become DELETED once a scan has recorded it"""
+        f = self.files.pop((disk, name))
+        os.remove(self.path(disk, name))
+        for i in range(f['nblk']):
+            self.owner[disk].pop(f['start'] + i)
+            self.deleted[(disk, f['start'] + i)] = True
+        self.pending.discard((disk, name))
+        return f
 
     def heal(self):
         """undo every outstanding damage / unsynced change by hand (exact bytes and mtimes)"""
@@ -161,7 +184,10 @@ class Arr:
         self.heal()
         self.tick()
         before, _, _ = self.status()
-        args = ['sync'] + (['-B', str(partial)] if partial is not None else [])
+        if isinstance(partial, tuple):
+            args = ['sync', '-S', str(partial[0]), '-B', str(partial[1])]
+        else:
+            args = ['sync'] + (['-B', str(partial)] if partial is not None else [])
         rc, out, lt = self.run(args)
         self.history.append({'op': 'sync', 'T': self.T, 'partial': partial})
         if rc != 0:
@@ -171,6 +197,9 @@ class Arr:
         for k, b in enumerate(blocks):
             if b['used'] and b['time'] == t8:
                 self.just[k] = 1
+        for (d, pos) in list(self.deleted):
+            if partial is None or pos >= len(blocks) or not blocks[pos]['unsynced']:
+                del self.deleted[(d, pos)]          # the stripe was processed (or dropped): the block is EMPTY now
         if partial is None:
             self.pending.clear()
         else:
@@ -286,12 +315,16 @@ class Arr:
         for d in self.disks:
             own = self.owner[d].get(pos)
             if own is None:
-                ds.append('1E0D1')
+                if (d, pos) in self.deleted and blocks[pos]['unsynced']:
+                    ds.append('1D0D1')          # DELETED block on record: invalid parity, no file
+                    any_chg = True
+                else:
+                    ds.append('1E0D1')
                 continue
             name, idx = own
             key = (d, name)
             if key in self.pending and blocks[pos]['unsynced']:
-                blk = 'C'
+                blk = 'R' if self.files[key].get('rep') else 'C'
                 any_chg = True
             else:
                 blk = 'B'
@@ -324,7 +357,7 @@ class Arr:
         self.check_hist(ws, hist, 'before scrub')
         case = {'array': self.name, 'spec': self.spec, 'scrub_no': self.nscrub, 'now': now, 'plan': parg, 'older': older, 'test': test, 'infos': ws,
                 'eio': eio, 'damage': {'silent': sorted(self.silent), 'parity': sorted(self.pcorrupt), 'changed': sorted(self.changed.items()),
-                                       'pending': sorted(self.pending)}, 'history_len': len(self.history)}
+                                       'pending': sorted(self.pending), 'deleted': sorted(self.deleted)}, 'history_len': len(self.history)}
         self.history.append({'op': 'scrub', 'T': now, 'plan': parg, 'older': older, 'test': test, 'eio': eio})
         args = []
         if parg is not None:
@@ -341,6 +374,7 @@ class Arr:
             env = {'C15_EIO_PATH': '%s/%s' % (eio[0], name), 'C15_EIO_OFFSET': str(idx * 1024)}
         self.stats['eio_scrubs'] += 1 if eio is not None else 0
         self.stats['pending_scrubs'] += 1 if any(b['unsynced'] for b in blocks) else 0
+        self.stats['deleted_scrubs'] += 1 if any(blocks[pos]['unsynced'] and blocks[pos]['used'] for (d, pos) in self.deleted if pos < len(blocks)) else 0
         self.stats['changed_scrubs'] += 1 if self.changed else 0
         dig0 = self.tree_digest()
         rc, out, lt = self.run(args + ['scrub'], extra_env=env)
@@ -482,9 +516,13 @@ class Arr:
         'io' | 'silent' | 'verified' | 'inconclusive'"""
         io = silent = other = False
         unsynced = False
+        stale = False
         for d in self.disks:
             own = self.owner[d].get(pos)
             if own is None:
+                if (d, pos) in self.deleted and blocks[pos]['unsynced']:
+                    unsynced = True           # a file deleted since the last sync: the parity still holds its data
+                    stale = True
                 continue
             name, idx = own
             key = (d, name)
@@ -504,7 +542,7 @@ class Arr:
             return 'damaged'
         if other:
             return 'inconclusive'
-        pm = any((l, pos) in self.pcorrupt for l in range(self.npar)) or any((d, self.owner[d][pos][0]) in self.pending and blocks[pos]['unsynced'] for d in self.disks if pos in self.owner[d])
+        pm = stale or any((l, pos) in self.pcorrupt for l in range(self.npar)) or any((d, self.owner[d][pos][0]) in self.pending and blocks[pos]['unsynced'] for d in self.disks if pos in self.owner[d])
         if pm:
             return 'inconclusive' if unsynced else 'damaged'
         return 'verified'
@@ -713,6 +751,59 @@ def scenario_ties(a, rounds, viol):
             a.scrub('bad', None, tag='after_fix')
 
 
+def scenario_deleted(a, rounds, viol):
+    """files deleted since the last sync whose DELETED blocks are on record (content saved by a partial sync) while
+    the parity still holds their data, next to synced files on the other disks; also with CHG / REP blocks.
+    Expected: file errors only, no bad mark, info words of those stripes unchanged."""
+    rng = a.rng
+    for b in range(2):
+        a.add_files([(d, rng.randrange(1, 4)) for d in a.disks for _ in range(rng.randrange(2, 5))])
+        a.tick(rng.choice([DAY, 3 * DAY]))
+        a.sync()
+    a.scrub('full', None, dt=2 * DAY, tag='deleted')
+    for rd in range(rounds):
+        blocks, _, _ = a.status()
+        # a victim whose stripes all hold a file of another disk too
+        cands = [k for k in sorted(a.files) if k not in a.pending and
+                 all(any(p in a.owner[d2] for d2 in a.disks if d2 != k[0]) for p in range(a.files[k]['start'], a.files[k]['start'] + a.files[k]['nblk']))]
+        if not cands:
+            break
+        vd, vn = rng.choice(cands)
+        vf = a.delete_file(vd, vn)
+        vpos = set(range(vf['start'], vf['start'] + vf['nblk']))
+        kind = rng.choice(['plain', 'plain', 'chg_other', 'rep_other', 'chg_over'])
+        if kind == 'chg_other':            # a new file on another disk (CHG blocks, appended)
+            a.add_files([(rng.choice([d for d in a.disks if d != vd]), rng.randrange(1, 3))])
+        elif kind == 'rep_other':          # a copy of a synced file on another disk (REP blocks, appended)
+            srcs = [k for k in sorted(a.files) if k not in a.pending and all((d, k[1]) not in a.files for d in a.disks if d != k[0])]
+            if srcs:
+                src = rng.choice(srcs)
+                a.add_files([(rng.choice([d for d in a.disks if d != src[0]]), 0, None, src)])
+        elif kind == 'chg_over' and min([p for (d, p) in a.deleted if d == vd]) == vf['start'] and \
+                all(p in a.owner[vd] for p in range(0, vf['start'])):
+            # a new file of the same size on the same disk takes the freed positions (CHG over DELETED)
+            a.add_files([(vd, vf['nblk'], vf['start'])])
+        # record the scan without processing the victim's stripes
+        nblk = max(a.alloc.values())
+        free = [p for p in range(nblk) if p not in vpos]
+        if not free:
+            break
+        start = rng.choice(free)          # (a start beyond the parity size is refused by the tool)
+        a.sync(partial=(start, 1))
+        a.scrub('full' if rng.random() < 0.7 else 100, None if rng.random() < 0.7 else 0, dt=rng.choice([DAY, 12 * DAY]), tag='deleted')
+        if rng.random() < 0.5:
+            a.scrub(rng.randrange(20, 101), 0, dt=DAY, tag='deleted')
+        a.tick(DAY)
+        a.sync()
+        a.scrub('full', None, dt=DAY, tag='deleted')
+        if any(h for h in a.deleted):
+            raise HarnessError('deleted blocks still on record after a full sync')
+        # holes left on the victim's disk would be reused by later files: stop adding to this array unless refilled
+        if kind != 'chg_over' or (vd, vf['start']) not in [(d, p) for d in a.disks for p in a.owner[d]]:
+            if any(p not in a.owner[vd] for p in range(a.alloc[vd])):
+                break
+
+
 def install(a, groups, m):
     """give stripe k the time of group groups[k] (0..m), later groups later: group 0 by `-p full` (the others are
     corrupted and become bad, keeping their old time), group j by `scrub -p bad` after restoring its data"""
@@ -737,7 +828,7 @@ def probe_wraparound(tool, shim, model_exe, chk, seed):
     Model and binary must agree (the oracle of the property is not consulted: it would refuse these numbers)."""
     import random
     stats = {'tool_runs': 0, 'scrubs': 0, 'fixes': 0, 'refused': 0, 'selected_total': 0, 'plans': {}, 'cases': [], 'eio_scrubs': 0,
-             'pending_scrubs': 0, 'changed_scrubs': 0, 'outcomes': {'verified': 0, 'damaged': 0, 'inconclusive': 0}}
+             'pending_scrubs': 0, 'changed_scrubs': 0, 'deleted_scrubs': 0, 'outcomes': {'verified': 0, 'damaged': 0, 'inconclusive': 0}}
     found = []
 
     def viol(tag, what, replay_obj, kind):
@@ -917,7 +1008,7 @@ def main(tier, replay=None):
         import random
         rng = random.Random(seed)
         stats = {'tool_runs': 0, 'scrubs': 0, 'fixes': 0, 'refused': 0, 'selected_total': 0, 'plans': {}, 'cases': [], 'eio_scrubs': 0,
-                 'pending_scrubs': 0, 'changed_scrubs': 0,
+                 'pending_scrubs': 0, 'changed_scrubs': 0, 'deleted_scrubs': 0,
                  'outcomes': {'verified': 0, 'damaged': 0, 'inconclusive': 0}}
         name = '%s%d' % (kind, idx)
         m = Model(model_exe)
@@ -926,6 +1017,8 @@ def main(tier, replay=None):
         try:
             if kind == 'walk':
                 scenario_walk(a, steps, a.viol)
+            elif kind == 'deleted':
+                scenario_deleted(a, steps, a.viol)
             else:
                 scenario_ties(a, steps, a.viol)
         except StopScenario:
@@ -976,6 +1069,8 @@ def main(tier, replay=None):
     for i in range(nwalk):
         t0 = rng.choice([1700000000, 1700000000, 1000000, 4000000000, 1234567])
         specs.append(('walk', i, rng.getrandbits(48), rng.choice([2, 3, 3, 4]), rng.choice([1, 2, 2, 3]), t0 + rng.randrange(0, 8), wsteps))
+    for i in range(10 if tier == 'quick' else 40):
+        specs.append(('deleted', i, rng.getrandbits(48), 3, rng.choice([1, 2]), 1700000000 + rng.randrange(0, 8), 3))
     for i in range(nties):
         t0 = rng.choice([1700000000, 90 * DAY, 4000000000])
         specs.append(('ties', i, rng.getrandbits(48), rng.choice([2, 3]), rng.choice([1, 2]), t0 + rng.randrange(0, 8), trounds))
@@ -1038,6 +1133,7 @@ def main(tier, replay=None):
         'scrubs_with_injected_eio': sum(s['eio_scrubs'] for s in stats_all),
         'scrubs_with_pending_blocks': sum(s['pending_scrubs'] for s in stats_all),
         'scrubs_with_changed_files': sum(s['changed_scrubs'] for s in stats_all),
+        'scrubs_with_deleted_blocks_on_record': sum(s['deleted_scrubs'] for s in stats_all),
         'plans_run': plans, 'stripe_outcomes_on_binary': outc,
         'tie_cut_cases': sum(1 for c in cases if c['tie_cut']), 'cases_with_bad_marks': sum(1 for c in cases if c['bad']),
         'stripes_selected_total': sum(s['selected_total'] for s in stats_all),
